@@ -375,11 +375,21 @@ def atom_using(ch, env, var, T, depth):
 
 def quantifier(ch, env, depth):
     var = _fresh_qvar(ch, env)
+    shadow = None
+    if env.aliases and not env.chaos and ch.int(0, 9) == 0:
+        # the quantifier binds the name of an alias that is visible here: inside (and in the domain, which must not
+        # mention the variable at all) the alias is out of reach; outside the name keeps meaning the earlier message
+        cands = sorted(a for a in env.aliases if a not in env.qvars)
+        if cands:
+            shadow = var = ch.pick(cands)
     if var is None:
         return None
     T = ch.pick(['N', 'N', 'B', 'S'])
     if not env.allow_f12:
         T = env.qtypes.setdefault(var, T)
+    if shadow is not None:
+        visible = {a: sc for a, sc in env.aliases.items() if a != shadow}
+        env = Env(env.this, visible, env.qvars, env.chaos, env.reserved | {shadow}, env.qtypes, env.allow_f12)
     # the domain must not mention the variable, not even bound by a quantifier of its own
     outer = env.derive(reserved=env.reserved | {var})
     dom = compound(ch, outer, T, max(depth - 1, 0))
